@@ -27,6 +27,8 @@ P_S = "pool.SimpleTaskPool."
 def u_lock(ip: Interp, th: PoolTheory):
     for name, want in (("lock", True), ("unlock", False)):
         st = th.initial()
+        if name == "unlock":
+            st.assume(z3.Not(st.sh["closing"].t))  # assumption U5: nobody unlocks while gather_and_close is in progress
         st0 = st.fork()
         for s, v in run_body(ip, th, st, P_B + name, {}):
             th.check_point(s, f"{name}:exit")
@@ -457,3 +459,349 @@ def u_str(ip: Interp, th: PoolTheory):
     c = StrV(fresh("cls", S))
     na, nb = sym.str_concat([c, "-", StrV(sym.itos(a))]), sym.str_concat([c, "-", StrV(sym.itos(b))])
     ip.require(st, "lemma:unnamed-pools-with-distinct-indices-have-distinct-names", z3.Implies(a != b, na.t != nb.t), ("C11",))
+
+
+# ======================================================================================================
+# _check_start    (C09: documented order of rejection causes)
+# ======================================================================================================
+def A(name):
+    return z3.Const(name, z3.ArraySort(Ref, B))
+
+
+@unit(P_B + "_check_start", ("C09",), [P_B + "_check_start"])
+def u_check_start(ip: Interp, th: PoolTheory):
+    st = th.initial()
+    aw, fn = RefV(fresh("a_awaitable", Ref)), RefV(fresh("a_function", Ref))
+    ign = BoolV(fresh("a_ignore_lock", B))
+    st0 = st.fork()
+    p = PView(st0)
+    both_or_neither = (aw.t == NONE) == (fn.t == NONE)
+    not_coro = z3.And(aw.t != NONE, z3.Not(z3.Select(A("is_coro"), aw.t)))
+    not_cofn = z3.And(fn.t != NONE, z3.Not(z3.Select(A("is_corofunc"), fn.t)))
+    order = [("TypeError", both_or_neither), ("NotCoroutine", not_coro), ("NotCoroutineFunction", not_cofn), ("PoolIsClosed", p.closed), ("PoolIsLocked", z3.And(p.locked, z3.Not(ign.t)))]
+    for s, v in run_body(ip, th, st, P_B + "_check_start", {"awaitable": aw, "function": fn, "ignore_lock": ign}):
+        unchanged(ip, s, st0, "pure", ("C09",))
+        if isinstance(v, Exit):
+            c = v.val.cls
+            idx = [k for k, (n, _) in enumerate(order) if n == c]
+            if not idx:
+                no_exit(ip, s, "noraise:" + c, ("C09",))
+                continue
+            k = idx[0]
+            ip.require(s, f"raises:{c}:first-applicable-cause-in-documented-order", z3.And([z3.Not(cnd) for _n, cnd in order[:k]] + [order[k][1]]), ("C09",))
+        else:
+            ip.require(s, "post:accepted-iff-no-cause", z3.And([z3.Not(cnd) for _n, cnd in order]), ("C09",))
+
+
+# ======================================================================================================
+# spawning entry points: apply / _map / map / starmap / doublestarmap / start / _generate_group_name
+# (C04 exactly one spawner with the caller's arguments, C05 stars, C09 rejection leaves no trace, C10 names)
+# ======================================================================================================
+def fname_of(ref):
+    return z3.Select(z3.Const("fname", z3.ArraySort(Ref, S)), ref)
+
+
+def generated_name(prefix: str, func_ref, i):
+    """documented pattern '<method>-<func>-group-<i>'"""
+    return sym.str_concat([prefix, "-", StrV(fname_of(func_ref)), "-group", "-", StrV(sym.itos(i))])
+
+
+def inv_generate_group_name(c):
+    p = PView(c.st)
+    base: StrV = c.loc("base_name")
+    i = c.loc("i").t
+    k = z3.Int("k!l")
+    return [("all-smaller-indices-taken", z3.And(i >= 0, z3.ForAll([k], z3.Implies(z3.And(0 <= k, k < i), p.G.has(sym.str_concat([base, "-", StrV(sym.itos(k))]).t)))))]
+
+
+LOOPSPECS[(P_T + "_generate_group_name", 1)] = LoopSpec(inv_generate_group_name, ("C10",), name="first-free-index")
+
+
+def spawn_events(s: St):
+    return [e for e in s.trace if e[0] == "spawn"]
+
+
+def same_arg(ip, s, got: V, want) -> z3.ExprRef:
+    got = ip.deref(s, got)
+    if isinstance(want, z3.ExprRef):
+        if isinstance(got, (RefV, IntV, StrV, BoolV)):
+            return got.t == want
+        if isinstance(got, NoneV):
+            return want == NONE
+        return z3.BoolVal(False)
+    if isinstance(want, int):
+        return got.t == want if isinstance(got, IntV) else z3.BoolVal(False)
+    return z3.BoolVal(False)
+
+
+def entry_point_unit(which: str):
+    """which in apply | map | starmap | doublestarmap | _map"""
+
+    def fn(ip: Interp, th: PoolTheory):
+        install(ip)
+        st = th.initial()
+        func = RefV(fresh("a_func", Ref))
+        st.assume(func.t != NONE)
+        gname = OptV(fresh("a_group_none", B), StrV(fresh("a_group", S)))
+        ecb, ccb = RefV(fresh("a_ecb", Ref)), RefV(fresh("a_ccb", Ref))
+        if which == "apply":
+            a = {"func": func, "args": RefV(fresh("a_args", Ref)), "kwargs": RefV(fresh("a_kwargs", Ref)), "num": IntV(fresh("a_num", I)), "group_name": gname,
+                 "end_callback": ecb, "cancel_callback": ccb}
+            st.assume(a["args"].t != NONE)
+        else:
+            itname = {"map": "arg_iter", "starmap": "args_iter", "doublestarmap": "kwargs_iter", "_map": "arg_iter"}[which]
+            a = {"func": func, itname: RefV(fresh("a_iter", Ref)), "num_concurrent": IntV(fresh("a_num_concurrent", I)), "group_name": gname,
+                 "end_callback": ecb, "cancel_callback": ccb}
+            st.assume(a[itname].t != NONE)
+            if which == "_map":
+                a["group_name"] = StrV(fresh("a_group", S))
+                a["arg_stars"] = IntV(fresh("a_stars", I))
+        st0 = st.fork()
+        p0 = PView(st0)
+        is_cofn = z3.Select(A("is_corofunc"), func.t)
+        given = z3.BoolVal(True) if which == "_map" else z3.Not(gname.isnone)
+        gterm = a["group_name"].t if which == "_map" else gname.inner.t
+        causes = [("NotCoroutineFunction", z3.Not(is_cofn)), ("PoolIsClosed", p0.closed), ("PoolIsLocked", p0.locked)]
+        if which != "apply":
+            causes.append(("ValueError", a["num_concurrent"].t < 1))
+        causes.append(("TaskGroupAlreadyExists", z3.And(given, p0.G.has(gterm))))
+        qual = P_T + which
+        for s, v in run_body(ip, th, st, qual, a):
+            th.check_point(s, "exit")
+            sp = spawn_events(s)
+            if isinstance(v, Exit):
+                c = v.val.cls
+                names = [n for n, _ in causes]
+                if c not in names:
+                    no_exit(ip, s, "noraise:" + c, ("C09",))
+                    continue
+                k = names.index(c)
+                ip.require(s, f"raises:{c}:its-documented-cause-holds", causes[k][1], ("C09",))
+                unchanged(ip, s, st0, "rejected-request-leaves-no-trace", ("C09",))
+                ip.require(s, "rejected:no-task-created-no-user-code-run", z3.BoolVal(not sp and not any(e[0] in ("callout", "corocall", "await_user") for e in s.trace)), ("C09",))
+                continue
+            ip.require(s, "accepted:only-without-any-rejection-cause", z3.And([z3.Not(cnd) for _n, cnd in causes]), ("C09",))
+            ip.require(s, "accepted:exactly-one-spawner-created-no-user-code-run", z3.BoolVal(len(sp) == 1 and not any(e[0] in ("callout", "corocall", "await_user") for e in s.trace)), ("C04", "C05", "C09"))
+            if len(sp) != 1:
+                continue
+            _, t, q, cargs = sp[0]
+            p1 = PView(s)
+            if which == "_map":
+                name_t = a["group_name"].t
+            else:
+                if not isinstance(v, StrV):
+                    no_exit(ip, s, "post:returns-the-group-name", ("C10",))
+                    continue
+                name_t = v.t
+                # name: the given one, or the first free '<method>-<func>-group-<i>'
+                if v.parts is not None and len(v.parts) >= 2 and not isinstance(v.parts[-1], str) and v.parts[-1].decl().name() == "itos":
+                    i_t = v.parts[-1].arg(0)
+                    kk = z3.Int("k!p")
+                    ip.require(s, "post:generated-name-follows-the-documented-pattern-and-is-the-first-free",
+                               z3.And(gname.isnone, i_t >= 0, v.t == generated_name(which, func.t, i_t).t, z3.Not(p0.G.has(v.t)),
+                                      z3.ForAll([kk], z3.Implies(z3.And(0 <= kk, kk < i_t), p0.G.has(generated_name(which, func.t, kk).t)))), ("C10",))
+                else:
+                    ip.require(s, "post:given-name-is-returned", z3.And(z3.Not(gname.isnone), v.t == gname.inner.t), ("C10",))
+            want_q = P_T + ("_apply_spawner" if which == "apply" else "_arg_consumer")
+            ip.require(s, "post:spawner-kind", z3.BoolVal(q == want_q), ("C04", "C05"))
+            if which == "apply":
+                exp = {"group_name": name_t, "func": func.t, "args": a["args"].t, "kwargs": a["kwargs"].t, "num": a["num"].t, "end_callback": ecb.t, "cancel_callback": ccb.t}
+            else:
+                stars = {"map": 0, "starmap": 1, "doublestarmap": 2}.get(which)
+                exp = {"group_name": name_t, "num_concurrent": a["num_concurrent"].t, "func": func.t, "arg_iter": a[itname].t,
+                       "arg_stars": stars if stars is not None else a["arg_stars"].t, "end_callback": ecb.t, "cancel_callback": ccb.t}
+            ok = z3.And([same_arg(ip, s, cargs[k], w) for k, w in exp.items()] + [z3.BoolVal(set(cargs) == set(exp))])
+            ip.require(s, "post:spawner-gets-exactly-the-caller's-arguments", ok, ("C04", "C05"))
+            h = z3.Const("h!p", S)
+            u = z3.Const("u!p", Ref)
+            ip.require(s, "post:new-empty-group-registered-others-untouched",
+                       z3.And(p1.G.has(name_t), z3.Not(p0.G.has(name_t)), z3.Select(p1.G.cols[1], name_t) == 0, z3.Not(p1.Glock(name_t)),
+                              z3.ForAll([h], z3.Implies(h != name_t, z3.And(p1.G.has(h) == p0.G.has(h), z3.Select(p1.G.cols[0], h) == z3.Select(p0.G.cols[0], h),
+                                                                              z3.Select(p1.G.cols[1], h) == z3.Select(p0.G.cols[1], h))))), ("C10", "C09"))
+            ip.require(s, "post:spawner-registered-for-its-group",
+                       z3.And(p1.M.has(name_t), p1.Mset(name_t, t), z3.Select(p1.grp, t) == name_t, z3.Select(p1.loc, t) == L_NS, z3.Not(z3.Select(p1.creq, t)),
+                              z3.ForAll([u], z3.Implies(u != t, p1.Mset(name_t, u) == z3.And(p0.M.has(name_t), p0.Mset(name_t, u)))),
+                              z3.ForAll([h], z3.Implies(h != name_t, z3.And(p1.M.has(h) == p0.M.has(h), z3.Select(p1.M.cols[0], h) == z3.Select(p0.M.cols[0], h))))), ("C07", "C10"))
+            unchanged(ip, s, st0, "nothing-else-changes", ("C09", "C11"), except_=("_task_groups", "_group_meta_tasks_running", "kind", "loc", "creq", "cever", "tok", "mtok", "grp", "fcan"))
+
+    return fn
+
+
+for _w in ("apply", "_map", "map", "starmap", "doublestarmap"):
+    UNITS.append(Unit(P_T + _w, entry_point_unit(_w), ("C04", "C05", "C09", "C10", "C07"),
+                      [P_T + _w, P_T + "_generate_group_name", P_B + "_check_start"] + ([P_T + "_map"] if _w not in ("apply", "_map") else []),
+                      theory_factory=lambda: PoolTheory("TaskPool"), trusted=TRUSTED))
+
+
+@unit(P_S + "start", ("C04", "C09", "C10"), [P_S + "start", P_B + "_check_start"], cls="SimpleTaskPool")
+def u_start(ip: Interp, th: PoolTheory):
+    install(ip)
+    st = th.initial()
+    st.assume(st.sh["_func"].t != NONE)
+    num = IntV(fresh("a_num", I))
+    st0 = st.fork()
+    p0 = PView(st0)
+    is_cofn = z3.Select(A("is_corofunc"), st0.sh["_func"].t)
+    causes = [("NotCoroutineFunction", z3.Not(is_cofn)), ("PoolIsClosed", p0.closed), ("PoolIsLocked", p0.locked)]
+    sc0 = st0.sh["_start_calls"].t
+    for s, v in run_body(ip, th, st, P_S + "start", {"num": num}):
+        th.check_point(s, "exit")
+        sp = spawn_events(s)
+        if isinstance(v, Exit):
+            c = v.val.cls
+            names = [n for n, _ in causes]
+            if c not in names:
+                no_exit(ip, s, "noraise:" + c, ("C09",))
+                continue
+            ip.require(s, f"raises:{c}:its-documented-cause-holds", causes[names.index(c)][1], ("C09",))
+            unchanged(ip, s, st0, "rejected-request-leaves-no-trace", ("C09",))
+            ip.require(s, "rejected:no-task-created", z3.BoolVal(not sp), ("C09",))
+            continue
+        ip.require(s, "accepted:only-without-any-rejection-cause", z3.And([z3.Not(cnd) for _n, cnd in causes]), ("C09",))
+        ip.require(s, "accepted:exactly-one-spawner", z3.BoolVal(len(sp) == 1), ("C04",))
+        if len(sp) != 1 or not isinstance(v, StrV):
+            continue
+        _, t, q, cargs = sp[0]
+        p1 = PView(s)
+        ip.require(s, "post:name-is-'start-group-<calls so far>'-and-fresh", z3.And(v.t == start_group_name(sc0), z3.Not(p0.G.has(v.t)), z3.Not(p0.M.has(v.t)), s.sh["_start_calls"].t == sc0 + 1), ("C10",))
+        ip.require(s, "post:spawner-is-_start_num(num, name)", z3.And(z3.BoolVal(q == P_S + "_start_num" and set(cargs) == {"num", "group_name"}), same_arg(ip, s, cargs.get("num", NoneV()), num.t),
+                                                                      same_arg(ip, s, cargs.get("group_name", NoneV()), v.t)), ("C04",))
+        ip.require(s, "post:group-and-spawner-registered", z3.And(p1.G.has(v.t), z3.Select(p1.G.cols[1], v.t) == 0, p1.M.has(v.t), p1.Mset(v.t, t), z3.Select(p1.grp, t) == v.t), ("C10", "C07"))
+        unchanged(ip, s, st0, "nothing-else-changes", ("C09", "C11"), except_=("_task_groups", "_group_meta_tasks_running", "_start_calls", "kind", "loc", "creq", "cever", "tok", "mtok", "grp", "fcan"))
+
+
+# ======================================================================================================
+# flush / gather_and_close / until_closed   (C13, C08, C12, C03)
+# ======================================================================================================
+def c_pop_ended_meta_tasks(ip: Interp, st: St, fr, selfv, args):
+    """ASSUMED contract of _pop_ended_meta_tasks (not verified against its body: nested loops over a dict of
+    sets mutated during iteration; listed in the trusted base, covered by the bounded monitor only):
+    removes exactly the done spawners from the per-group sets (dropping empty groups) and returns them."""
+    th: PoolTheory = ip.theory
+    p0 = PView(st)
+    M0 = st.sh["_group_meta_tasks_running"]
+    th.havoc_shared(st, ("_group_meta_tasks_running",), "pem")
+    th._facts(st, st.sh["_group_meta_tasks_running"])
+    p1 = PView(st)
+    g = z3.Const("g!pe", S)
+    t = z3.Const("t!pe", Ref)
+    done = lambda tt: z3.Select(p0.loc, tt) == L_DONE
+    st.assume(z3.ForAll([g, t], z3.And(p1.M.has(g), p1.Mset(g, t)) == z3.And(p0.M.has(g), p0.Mset(g, t), z3.Not(done(t)))))
+    st.assume(z3.ForAll([g], z3.Implies(p1.M.has(g), p0.M.has(g))))
+    ended = SetV.symbolic("ended", RefL())
+    for f in ended.qfacts():
+        st.assume(f)
+    st.assume(z3.ForAll([t], ended.has(t) == z3.Exists([g], z3.And(p0.M.has(g), p0.Mset(g, t), done(t)))))
+    return [(st, ended)]
+
+
+ASSUMED_CONTRACTS = ["pool.BaseTaskPool._pop_ended_meta_tasks (removes exactly the done meta tasks, returns them) - assumed, not verified against its body"]
+
+FLUSH_FRAME = ("_tasks_running", "_num_started", "_locked", "_closed", "_enough_room", "_task_groups", "size")
+
+
+def inv_flush_forget(c):
+    """`for task_id in flushed:` forgets exactly the awaited ids that are still registered as ended; the
+    cancelled registry is not touched because an awaited (hence finished) task is never in it"""
+    p0, p1 = PView(c.st0), PView(c.st)
+    x, j = z3.Int("x!l"), z3.Int("j!l")
+    visited = lambda xx: z3.Exists([j], z3.And(0 <= j, j < c.i, z3.Select(c.it.seq, j) == xx))
+    return [("ended-loses-only-visited-ids", z3.ForAll([x], z3.And(p1.E.has(x) == z3.And(p0.E.has(x), z3.Not(visited(x))), z3.Implies(p1.E.has(x), p1.Ev(x) == p0.Ev(x))))),
+            ("cancelled-untouched", z3.And(p1.C.card == p0.C.card, z3.ForAll([x], z3.And(p1.C.has(x) == p0.C.has(x), p1.Cv(x) == p0.Cv(x))))),
+            ("forgotten-counts-what-was-removed", p1.forgotten - p0.forgotten == p0.E.card - p1.E.card)]
+
+
+LOOPSPECS[(P_B + "flush", 1)] = LoopSpec(inv_flush_forget, ("C13", "C03"), name="forget-awaited")
+
+
+@unit(P_B + "flush", ("C13", "C12", "C03", "C02", "C01"), [P_B + "flush"])
+def u_flush(ip: Interp, th: PoolTheory):
+    install(ip)
+    ip.contracts[P_B + "_pop_ended_meta_tasks"] = c_pop_ended_meta_tasks
+    th.loops_need_inv = True
+    th.segment_frame = FLUSH_FRAME
+    st = th.initial(me_kind=K_OTHER)  # assumption U6: not called from a callback of one of the pool's own tasks
+    re = BoolV(fresh("a_return_exceptions", B))
+    st0 = st.fork()
+    p0 = PView(st0)
+    i = z3.Int("i!p")
+    for s, v in run_body(ip, th, st, P_B + "flush", {"return_exceptions": re}):
+        th.check_point(s, "exit")
+        p1 = PView(s)
+        for k in FLUSH_FRAME:
+            if not same_value(s.aux["seg0"][k], s.sh[k]):
+                ip.require(s, f"frame:segment-does-not-write:{k}@exit", eq_value(s.aux["seg0"][k], s.sh[k]), ("C13",))
+        if isinstance(v, Exit):
+            origin = getattr(v.val, "origin", "pool")
+            ip.require(s, "raises:only-without-return_exceptions", z3.Not(re.t), ("C13", "C12"))
+            ip.require(s, f"raises:only-an-exception-of-a-task-or-callback:{v.val.cls}/{origin}", z3.BoolVal(origin == "user"), ("C12",))
+            continue
+        finished_before = lambda ii: z3.And(z3.Or(p0.E.has(ii)), z3.Select(p0.loc, p0.Ev(ii)) == L_DONE)
+        ip.require(s, "post:tasks-finished-before-the-call-are-forgotten", z3.ForAll([i], z3.Implies(finished_before(i), z3.And(z3.Not(p1.E.has(i)), z3.Not(p1.C.has(i)), z3.Not(p1.R.has(i))))), ("C13",))
+
+
+GC_FRAME = ("_num_started", "_enough_room", "_task_groups", "size")
+
+
+@unit(P_B + "gather_and_close", ("C08", "C12", "C03", "C07"), [P_B + "gather_and_close", P_B + "lock"])
+def u_gather_and_close(ip: Interp, th: PoolTheory):
+    install(ip)
+    th.loops_need_inv = True
+    th.segment_frame = GC_FRAME
+    th.private_keys = ("closing", "closing2")  # ghost flags owned by the closing thread
+    st = th.initial(me_kind=K_OTHER)
+    re = BoolV(fresh("a_return_exceptions", B))
+    st.assume(z3.Not(st.sh["closing"].t))  # one closer at a time (a second concurrent gather_and_close is outside U5)
+    state = {"n": 0}
+
+    def before_observe(s: St, label: str):
+        if "gather#1" in label:
+            s.sh["closing"] = BoolV(True)  # ghost: from here until the end the pool stays locked (U5)
+
+    def after_gather_ok(s: St, fr, label):
+        if label == "gather#1":
+            s.sh["closing2"] = BoolV(True)  # ghost: every spawner awaited is done (established by gather's contract)
+            p = PView(s)
+            t = z3.Const("t!g1", Ref)
+            # what I21 needs and the gather contract gave: checked (not assumed) right here
+            ip.require(s, "assert@after-first-gather:no-live-uncancelled-spawner", z3.ForAll([t], z3.Implies(p.is_spawner(t), z3.Or(z3.Select(p.loc, t) == L_DONE, z3.Select(p.creq, t)))), ("C08",))
+
+    th.before_observe = before_observe
+    th.after_gather_ok = after_gather_ok
+    st0 = st.fork()
+    for s, v in run_body(ip, th, st, P_B + "gather_and_close", {"return_exceptions": re}):
+        if isinstance(v, Exit):
+            # the ghost `closing` ends with the call (the pool stays locked)
+            s.sh["closing"] = BoolV(False)
+            s.sh["closing2"] = BoolV(False)
+            th.check_point(s, "raise-exit")
+            origin = getattr(v.val, "origin", "pool")
+            ip.require(s, "raises:only-without-return_exceptions", z3.Not(re.t), ("C08", "C12"))
+            ip.require(s, f"raises:only-an-exception-of-a-task-or-callback:{v.val.cls}/{origin}", z3.BoolVal(origin == "user"), ("C08", "C12"))
+            continue
+        p1 = PView(s)
+        t = z3.Const("t!p", Ref)
+        ip.require(s, "post:closed", p1.closed, ("C08",))
+        ip.require(s, "post:holds-no-tasks", z3.And(p1.R.card == 0, p1.C.card == 0, p1.E.card == 0), ("C08",))
+        ip.require(s, "post:returned-only-after-every-spawner-finished", z3.ForAll([t], z3.Implies(p1.is_spawner(t), z3.Or(z3.Select(p1.loc, t) == L_DONE, z3.Select(p1.creq, t)))), ("C08",))
+        ip.require(s, "post:returned-only-after-every-task-finished", z3.ForAll([t], z3.Implies(z3.Select(p1.kind, t) == K_WRAPPER, z3.Select(p1.loc, t) == L_DONE)), ("C08",))
+        s.sh["closing"] = BoolV(False)
+        s.sh["closing2"] = BoolV(False)
+        th.check_point(s, "exit")
+
+
+@unit(P_B + "until_closed", ("C08",), [P_B + "until_closed"])
+def u_until_closed(ip: Interp, th: PoolTheory):
+    st = th.initial(me_kind=K_OTHER)
+    th.segment_frame = tuple(k for k in st.sh if k not in ("loc",))
+    for s, v in run_body(ip, th, st, P_B + "until_closed", {}):
+        if isinstance(v, Exit):
+            no_exit(ip, s, "noraise:" + v.val.cls, ("C08",))
+            continue
+        ip.require(s, "post:returns-only-once-closed", PView(s).closed, ("C08",))
+        ip.require(s, "post:returns-True", v.t if isinstance(v, BoolV) else z3.BoolVal(False), ("C08",))
+    # closed is written only by gather_and_close (mechanical, from the AST)
+    writers = [q for q in ip.repo.attr_writes("_closed") if q.startswith("pool.")]
+    setters = [q for q in ip.repo.references("_closed") if q.startswith("pool.")]
+    ip.require(st, "callgraph:_closed-assigned-only-in-__init__", z3.BoolVal(writers == ["pool.BaseTaskPool.__init__"]), ("C08",), meta={"writers": writers})
+    ip.require(st, "callgraph:_closed-used-only-by-known-functions", z3.BoolVal(set(setters) <= {"pool.BaseTaskPool.__init__", "pool.BaseTaskPool._check_start", "pool.BaseTaskPool.gather_and_close", "pool.BaseTaskPool.until_closed"}), ("C08",), meta={"users": setters})
